@@ -2451,6 +2451,10 @@ func (r *stack) pop() (slice any, ok bool) {
 
 	var idx int
 
+	if r.ulen() == 0 {
+		return
+	}
+
 	if r.isFIFO() {
 		idx = 1
 		slice = (*r)[idx]
